@@ -210,6 +210,14 @@ example : (Model.builtinStringReplace (charEngine (dG false false) (.ch (.lit 98
     (Model.builtinStringReplace (charEngine (dG false false) (.ch (.lit 98))) ⟨false, .int 0⟩ [97, 98, 99] (.str [36, 38, 36, 38])).2
       = .str [97, 98, 98, 99] := by decide
 
+/-- **replacer_arguments.**  A function replacer is called with the §15.5.4.11 arguments (matched text,
+    captures with undefined for unmatched groups, offset in code units, subject) on an ASCII subject. -/
+theorem replacer_arguments (t : List Nat) (ha : ascii t) (mt : Caps) (h : capStart mt ≤ t.length) :
+    Model.replacerArgs t mt = Spec.replacerArgs t mt := Lem.replacerArgs_eq t ha mt h
+
+/-- the offset counts UTF-16 units also after an astral character: "😀x", match of x at byte 4 → "2" -/
+example : (Model.replacerArgs [0xF0, 0x9F, 0x98, 0x80, 120] [some (4, 5)])[1]? = some [50] := by decide
+
 /-! ## 5. end to end: the real matcher satisfies the link -/
 
 /-- **matcher_context_free.**  A pattern without `^`, `\b`, `\B` matches in the suffix `s[k:]` exactly as
